@@ -6,6 +6,7 @@ import (
 	"go/token"
 	"go/types"
 	"math/big"
+	"strconv"
 	"strings"
 
 	"golang.org/x/tools/go/ssa"
@@ -21,6 +22,7 @@ type modTarget struct {
 	owned bool
 	ownerPkg *types.Package
 	text  string
+	inSet func(r string) string // set-valued target: the predicate "r is one of the targets"
 }
 
 func (fr *Frame) evalModTarget(env *Env, x ast.Expr, text string) []modTarget {
@@ -65,6 +67,40 @@ func (fr *Frame) evalModTarget(env *Env, x ast.Expr, text string) []modTarget {
 				sc, ss := u.chanElemComp(cht)
 				return []modTarget{{comp: sc, sort: ss, ref: c.T, field: -1, text: text}, {comp: "ChSentN", sort: "(Array Int Int)", ref: c.T, field: -1, text: text},
 					{comp: "ChStamp", sort: "(Array Int (Array Int Int))", ref: c.T, field: -1, text: text}}
+			case "gc", "gb":
+				lit, ok := call.Args[0].(*ast.BasicLit)
+				if !ok {
+					env.fail("modifies %s(\"name\", ref)", fn.Name)
+				}
+				nm, _ := strconv.Unquote(lit.Value)
+				ref := env.eval(call.Args[1])
+				r := ref.T
+				if ref.S == "Iface" {
+					r = app("i_val", ref.T)
+				}
+				if fn.Name == "gc" {
+					return []modTarget{{comp: "GC_" + mangle(nm), sort: "(Array Int Int)", ref: r, field: -1, text: text}}
+				}
+				return []modTarget{{comp: "GB_" + mangle(nm), sort: "(Array Int (Array Int Int))", ref: r, field: -1, text: text}}
+			case "sentall":
+				// sentall(chans): the send histories of every channel held in the slice chans
+				sl := env.eval(call.Args[0])
+				st, ok := sl.Ty.Underlying().(*types.Slice)
+				if !ok {
+					env.fail("sentall of non-slice")
+				}
+				cht, ok := st.Elem().Underlying().(*types.Chan)
+				if !ok {
+					env.fail("sentall: not a slice of channels")
+				}
+				ec, es := u.elemComp(st.Elem())
+				contents := sel(u.comp(env.heap, ec, es), app("s_arr", sl.T))
+				pred := func(r string) string {
+					return fmt.Sprintf("(exists ((i!m Int)) (and (<= 0 i!m) (< i!m %s) (= %s (select %s (+ %s i!m)))))", app("s_len", sl.T), r, contents, app("s_off", sl.T))
+				}
+				sc, ss := u.chanElemComp(cht)
+				return []modTarget{{comp: sc, sort: ss, field: -1, text: text, inSet: pred, ref: "SET"}, {comp: "ChSentN", sort: "(Array Int Int)", field: -1, text: text, inSet: pred, ref: "SET"},
+					{comp: "ChStamp", sort: "(Array Int (Array Int Int))", field: -1, text: text, inSet: pred, ref: "SET"}}
 			case "mapof":
 				m := env.eval(call.Args[0])
 				mt := m.Ty.Underlying().(*types.Map)
@@ -126,6 +162,12 @@ func (fr *Frame) havocTarget(env *Env, m *Clause, h Heap, pre Heap) {
 			continue // private backing store: invisible to this caller (see 'owned' / encapsulation obligation)
 		}
 		cur := u.comp(h, t.comp, t.sort)
+		if t.inSet != nil {
+			nv := u.fresh(t.comp+"_call", t.sort)
+			u.assume(fmt.Sprintf("(forall ((r!h Int)) (=> (not %s) (= (select %s r!h) (select %s r!h))))", t.inSet("r!h"), nv, cur))
+			h[t.comp] = nv
+			continue
+		}
 		if t.ref == "" {
 			h[t.comp] = u.fresh(t.comp+"_call", t.sort)
 			continue
@@ -384,6 +426,10 @@ func (e *Engine) verifyFunction(key string) (u *Unit, err error) {
 			}
 			if t.field >= 0 {
 				continue // handled separately (field-level)
+			}
+			if t.inSet != nil {
+				alts = append(alts, t.inSet(r))
+				continue
 			}
 			alts = append(alts, eq(r, t.ref))
 		}
